@@ -216,8 +216,11 @@ class Type3Tag(nfc.tag.Tag):
             last_block_number = 1 + (attributes['ln'] + 15) // 16
             data = bytearray()
 
-            for i in range(1, last_block_number, attributes['nbr']):
-                last_block = min(i + attributes['nbr'], last_block_number)
+            # No more than 15 blocks fit into one response frame, a tag
+            # that announces a larger number is read in steps of 15.
+            nbr = min(attributes['nbr'], 15)
+            for i in range(1, last_block_number, nbr):
+                last_block = min(i + nbr, last_block_number)
                 block_list = range(i, last_block)
                 try:
                     data += self.tag.read_from_ndef_service(*block_list)
@@ -249,8 +252,11 @@ class Type3Tag(nfc.tag.Tag):
             attributes['ln'] = len(data)  # because we may need to pad zeros
             data = data + bytearray(-len(data) % 16)  # adjust to block size
 
-            for i in range(1, last_block_number, attributes['nbw']):
-                last_block = min(i + attributes['nbw'], last_block_number)
+            # No more than 13 blocks fit into one command frame, a tag
+            # that announces a larger number is written in steps of 13.
+            nbw = min(attributes['nbw'], 13)
+            for i in range(1, last_block_number, nbw):
+                last_block = min(i + nbw, last_block_number)
                 block_data = data[(i-1)*16:(last_block-1)*16]
                 self._tag.write_to_ndef_service(
                     block_data, *range(i, last_block))
